@@ -1,1 +1,4 @@
 import PyribsProofs.C13
+import PyribsProofs.C17
+import PyribsProofs.C10
+import PyribsProofs.C04
